@@ -7,6 +7,7 @@ CONSTANTS
   Plus = "max"
   Times = "add"
   LeafKind = "signed"
+  MaxParamT = 6
   Tag = "mk_maxadd"
 INVARIANT Inv_FoldInputs
 INVARIANT Emit
